@@ -234,6 +234,9 @@ pub struct RunCfg {
     /// (skipping s elements, which the chunk iterator must dispose of itself)
     #[serde(default)]
     pub consume_nth: usize,
+    /// how many elements of a chunk are taken with `next()` before that `nth(s)` call
+    #[serde(default)]
+    pub nth_at: usize,
     /// wrapped-iterator kinds only: the probe is NOT fused; after its first None (after `len`
     /// elements) it would yield this many further elements if asked again
     #[serde(default)]
@@ -323,6 +326,10 @@ pub enum Res {
         /// first observed element (`items[0]` is then the element at offset `skipped`)
         #[serde(default)]
         skipped: usize,
+        /// how many elements had been taken with `next()` before that `nth` call (0: the `nth`
+        /// call came first)
+        #[serde(default)]
+        skip_at: usize,
         /// how the caller got rid of the rest of the chunk: 0 dropped it, 1 `count()`, 2 `last()`
         #[serde(default)]
         finish: u8,
@@ -437,6 +444,7 @@ pub struct Ctx {
     pub kind: Kind,
     pub len: usize,
     pub consume_nth: usize,
+    pub nth_at: usize,
     pub finish: u8,
     pub seed: u64,
 }
@@ -454,6 +462,25 @@ impl Ctx {
     }
 }
 
+/// Offset inside the chunk of the j-th element the caller observed, when `skipped` elements
+/// were passed over by one `nth` call made after `skip_at` elements had been taken.
+pub fn chunk_off(skipped: usize, skip_at: usize, j: usize) -> usize {
+    if j >= skip_at {
+        j + skipped
+    } else {
+        j
+    }
+}
+
+/// Elements of the chunk consumed before the call that produced the j-th observed element.
+pub fn chunk_consumed_before(skipped: usize, skip_at: usize, j: usize) -> usize {
+    if j > skip_at {
+        j + skipped
+    } else {
+        j
+    }
+}
+
 fn hash_res(r: &Res, h: &mut Vec<u64>) {
     match r {
         Res::Item { idx, obs } => {
@@ -466,12 +493,16 @@ fn hash_res(r: &Res, h: &mut Vec<u64>) {
             announced,
             items,
             skipped,
+            skip_at,
             ..
         } => {
             h.push(2);
             h.push(*begin as u64);
             h.push(*announced as u64);
             h.push(*skipped as u64);
+            if *skip_at > 0 {
+                h.push(0x5a00 + *skip_at as u64);
+            }
             for i in items {
                 h.push(i.raw);
             }
@@ -562,11 +593,12 @@ fn patch_zst(res: &mut Res, seed: u64) {
             announced,
             items,
             skipped,
+            skip_at,
             finish_last,
             ..
         } => {
             for (j, o) in items.iter_mut().enumerate() {
-                label(o, begin.wrapping_add(*skipped + j));
+                label(o, begin.wrapping_add(chunk_off(*skipped, *skip_at, j)));
             }
             if let Some(o) = finish_last {
                 label(o, begin.wrapping_add(announced.saturating_sub(1)));
@@ -603,6 +635,7 @@ fn consume_chunk<T: Obs, I: ExactSizeIterator<Item = T>>(
             exhausted: false,
             impossible: true,
             skipped: 0,
+            skip_at: 0,
             finish: 0,
             finish_count: None,
             finish_last: None,
@@ -619,7 +652,8 @@ fn consume_chunk<T: Obs, I: ExactSizeIterator<Item = T>>(
     // style "nth": the first element taken is values.nth(s); the s skipped elements are never
     // seen by the caller and must be disposed of by the chunk iterator
     let mut skipped = 0usize;
-    let mut first = true;
+    let mut skip_at = 0usize;
+    let mut nth_done = false;
     let mut hint_bad = None;
     loop {
         if items.len() >= k {
@@ -630,10 +664,15 @@ fn consume_chunk<T: Obs, I: ExactSizeIterator<Item = T>>(
         if sh != (l, Some(l)) && hint_bad.is_none() {
             hint_bad = Some((l, sh.0, sh.1));
         }
-        let use_nth = first && ctx.consume_nth > 0 && announced > ctx.consume_nth && k > 0;
-        first = false;
+        let use_nth = !nth_done
+            && items.len() == ctx.nth_at
+            && ctx.consume_nth > 0
+            && announced > ctx.nth_at + ctx.consume_nth
+            && k > ctx.nth_at;
         let nxt = if use_nth {
+            nth_done = true;
             skipped = ctx.consume_nth;
+            skip_at = ctx.nth_at;
             values.nth(ctx.consume_nth)
         } else {
             values.next()
@@ -691,6 +730,7 @@ fn consume_chunk<T: Obs, I: ExactSizeIterator<Item = T>>(
         exhausted,
         impossible: false,
         skipped,
+        skip_at,
         finish,
         finish_count,
         finish_last,
@@ -1210,6 +1250,7 @@ where
         kind: cfg.kind,
         len: cfg.len,
         consume_nth: cfg.consume_nth,
+        nth_at: cfg.nth_at,
         finish: cfg.finish,
         seed: cfg.run_seed,
     };
